@@ -315,6 +315,7 @@ static inline myth_thread_t myth_queue_take(myth_thread_queue_t q)
     return NULL;
   }
 #else
+  MYTH_VERIF_POINT(16);
   MYTH_VERIF_FPOINT("take_lk");
   myth_wsqueue_lock_lock(&q->lock);
 #endif
